@@ -32,8 +32,9 @@ from fsim.world import stable_hash
 from machines.build import BUILD_STUBS
 
 NAMES = {'n0': ['x', 'y', 'z'], 'n1': ['y', 'extra'], 'N2': ['x', 'k'],
-         'N3': ['x', 'y'], 'n4': [], 'n5': ['x'], 'n6': ['x', 'y', 'k']}
-JSON_OK = ('n0', 'n1', 'N2', 'N3', 'n6')   # stubs that have a pyref
+         'N3': ['x', 'y'], 'n4': [], 'n5': ['x'], 'n6': ['x', 'y', 'k'],
+         'n0b': ['x', 'y', 'w']}
+JSON_OK = ('n0', 'n1', 'N2', 'N3', 'n6', 'n0b')   # stubs that have a pyref
 TAGS = ['T0', 'T1', 'T2', 'U0']
 BTYPES = {'Config': fdl.Config, 'Partial': fdl.Partial,
           'ArgFactory': fdl.ArgFactory}
@@ -236,6 +237,13 @@ def gen_case(world, tier, prop):
       op['kwargs'] = {nm: value() for nm in rng.sample(names, min(len(names), rng.randint(0, 2)))}
     if kind == 'diff_tags':
       op['edits'] = []
+      if rng.random() < 0.3:
+        # the callable is swapped and the NEW callable's parameter is tagged
+        n = 0 if rng.random() < 0.6 else rng.randint(0, 4)
+        op['edits'].append({'op': 'update_callable', 'c': 0, 'n': n,
+                            'fn': rng.choice(['n0b', 'n0']), 'drop': True})
+        op['edits'].append({'op': 'add_tag', 'c': 0, 'n': n,
+                            'arg': rng.choice(['w', 'z', 'x']), 'tag': rng.choice(TAGS)})
       for _ in range(rng.randint(1, 3)):
         e = tag_op()
         e['c'] = 0   # relative to the scratch copy
@@ -394,6 +402,26 @@ def model_apply(S_: Side, op):
         raise Skip()
       m.delitem(real_key(op['key'], m.sv.P))
     return None
+  if k == 'update_callable':
+    m = S_.target(op)
+    if m.btype == 'TaggedValueCls':
+      raise Skip()
+    if m.pos or m.tail:
+      raise M.Invalid('update_callable with positional arguments is unsupported')
+    new_sv = S_.mk.sv(op['fn'])
+    if new_sv.vk is None and any(
+        ts and isinstance(key, str) and key not in new_sv.pk and key not in new_sv.ko
+        for key, ts in m.tags.items()):
+      raise Skip()   # update_callable keeps tags of parameters that no longer
+                     # exist; what set_tagged should do with them is unspecified
+    bad = [n for n in m.named
+           if n not in new_sv.pk and n not in new_sv.ko and new_sv.vk is None]
+    if bad and not op.get('drop'):
+      raise M.Invalid('arguments invalid for the new callable')
+    for n in bad:
+      del m.named[n]
+    m.fn, m.sv = S_.fns[op['fn']], new_sv
+    return None
   if k in ('add_tag', 'remove_tag', 'set_tags', 'clear_tags'):
     m = S_.target(op)
     if m.btype == 'TaggedValueCls' and op['arg'] not in ('value', 0):
@@ -522,6 +550,11 @@ def impl_apply(S_: Side, op):
     else:
       del cfg[real_key(op['key'], fdl.VARARGS)]
     return None
+  if k == 'update_callable':
+    from fiddle._src import mutate_buildable
+    mutate_buildable.update_callable(S_.target(op), S_.fns[op['fn']],
+                                     drop_invalid_args=op.get('drop', False))
+    return None
   if k == 'add_tag':
     tagging.add_tag(S_.target(op), op['arg'], stubmod.TAGS[op['tag']])
     return None
@@ -617,6 +650,7 @@ COPY_OPS = ('copy', 'cast', 'copy_with', 'deepcopy', 'pickle', 'json',
             'deepcopy_with', 'diff_tags')
 EDIT_OPS = ('setattr', 'delattr', 'setitem', 'delitem')
 TAG_OPS = ('add_tag', 'remove_tag', 'set_tags', 'clear_tags')
+# (update_callable only occurs inside diff_tags edits)
 
 
 def identity_leaks(orig, new, deep):
